@@ -77,8 +77,10 @@ def configure(case, lk):
 
 
 def expected_payload(buf, dyn, L, lite_tx):
-    """None = must be rejected with ValueError"""
-    if dyn or lite_tx:
+    """None = must be rejected with ValueError; "either" = not judged (lite, static, 0 or >32 bytes)"""
+    if lite_tx and not dyn and not 1 <= len(buf) <= 32:
+        return "either"
+    if dyn:
         if not 1 <= len(buf) <= 32:
             return None
     if dyn:
@@ -107,6 +109,9 @@ def run_case(case, prefix=None):
             befores.append(raw)
             exps.append(expected_payload(raw, dyn, L, lite_t))
         is_list = call["form"] != "single"
+        if "either" in exps:
+            res.label("lite-static-unjudged-length")
+            continue
         arg = objs[0] if not is_list else (list(objs) if call["form"] == "list" else tuple(objs))
         n_trace = len(T.trace)
         raised = None
